@@ -201,6 +201,7 @@ pub struct Outcome {
     pub counters: BTreeMap<String, u64>,
     pub packet_types: BTreeMap<String, u64>,
     pub coarse_states: u64,
+    pub coarse_state_list: Vec<u64>,
     pub recent: Vec<String>,
     pub recorded: Option<simrt::Explicit>,
 }
@@ -229,6 +230,7 @@ fn emit(mut out: Outcome, code: i32) -> ! {
             out.counters = w.counters.clone();
             out.packet_types = w.sched.type_counts.clone();
             out.coarse_states = w.sched.coarse_states.len() as u64;
+            out.coarse_state_list = w.sched.coarse_states.iter().cloned().collect();
             out.recent = w.recent.iter().cloned().collect();
             if out.property.is_empty() {
                 out.property = w.spec.focus.clone();
